@@ -1,6 +1,7 @@
 """Loader and analyses over mirfacts JSON: CFG, dominators, call graph,
 terms, and the path simulator (families F2-F5 of DESIGN.md)."""
 import glob
+import copy
 import json
 import os
 import re
@@ -234,6 +235,18 @@ class Facts:
                 # several targets of one package may define the same path
                 self.fns.setdefault(k, f)
             self.adts.update(c.adts)
+        self.inlined = inline_new_helpers(self)
+
+    def owner_root(self, path):
+        """the function a (possibly inlined helper's or closure's) path is accounted to"""
+        seen = set()
+        while True:
+            root = path.split("::{closure")[0]
+            tgt = self.inlined.get(root)
+            if not tgt or len(set(tgt)) != 1 or root in seen:
+                return root
+            seen.add(root)
+            path = tgt[0]
 
     def crate(self, name):
         for c in self.crates:
@@ -255,16 +268,140 @@ class Facts:
         return fs[0]
 
     def closures_of(self, f):
-        pre = f.path + "::{closure#"
-        return [g for p, g in self.fns.items() if p.startswith(pre)]
+        owners, grew = {f.path}, True
+        while grew:
+            grew = False
+            for h, cs in self.inlined.items():
+                if h not in owners and owners & set(cs):
+                    owners.add(h)
+                    grew = True
+        pres = [o + "::{closure#" for o in owners]
+        return [g for p, g in self.fns.items() if any(p.startswith(pre) for pre in pres)]
 
-    def all_nested_closures(self, f):
-        pre = f.path + "::{closure#"
-        return [g for p, g in self.fns.items() if p.startswith(pre)]
+    all_nested_closures = closures_of
 
 
 class AnchorLost(Exception):
     pass
+
+
+# ---------------------------------------------------------------- helper inlining
+# The rules were written against a frozen list of functions (tables/known_fns.json). A private function that is not in
+# the list is a helper somebody extracted later; every rule sees it inlined at its call sites (MIR-level splice), so that
+# `extract function` refactorings are neutral for path, term, guard and census rules alike.
+
+KNOWN_FNS = os.path.join(os.path.dirname(os.path.abspath(__file__)), "tables", "known_fns.json")
+INLINE_MAX_BLOCKS = 600
+
+
+def _shift(node, off_l):
+    """deep copy with every local index shifted"""
+    if isinstance(node, dict):
+        out = {}
+        for k, v in node.items():
+            if k == "l" and isinstance(v, int):
+                out[k] = v + off_l
+            else:
+                out[k] = _shift(v, off_l)
+        return out
+    if isinstance(node, list):
+        return [_shift(x, off_l) for x in node]
+    return node
+
+
+def inline_call(caller, bi, callee):
+    """Splices the body of `callee` (fn dict) over the call terminator of block `bi` of `caller` (fn dict, modified)."""
+    call = caller["blocks"][bi]["term"]
+    off_l = len(caller["locals"])
+    off_b = len(caller["blocks"])
+    caller["locals"] = caller["locals"] + copy.deepcopy(callee["locals"])
+    for v in callee.get("vars") or []:
+        v2 = _shift(v, off_l)
+        v2["arg"] = None
+        v2["inlined_from"] = callee["path"]
+        caller.setdefault("vars", []).append(v2)
+    line = call.get("line")
+    blk = caller["blocks"][bi]
+    for i, a in enumerate(call["args"]):
+        blk["stmts"].append({"k": "assign", "dst": {"l": off_l + i + 1, "proj": []}, "rv": {"k": "use", "op": a},
+                             "exp": call.get("exp", False), "line": line, "inl": True})
+    blk["term"] = {"k": "goto", "t": off_b, "inlined_call": callee["path"], "line": line}
+    for b in callee["blocks"]:
+        nb = _shift(b, off_l)
+        tm = nb["term"]
+        k = tm["k"]
+        if k == "return":
+            nb["stmts"].append({"k": "assign", "dst": call["dst"], "rv": {"k": "use", "op": {
+                "k": "move", "p": {"l": off_l, "proj": []}}}, "exp": call.get("exp", False), "line": line, "inl": True})
+            nb["term"] = {"k": "goto", "t": call["t"], "line": line} if call.get("t") is not None else {"k": "unreachable"}
+        else:
+            if tm.get("t") is not None and k in ("goto", "drop", "call", "assert"):
+                tm["t"] = tm["t"] + off_b
+            if k == "switch":
+                tm["targets"] = [[v, tgt + off_b] for v, tgt in tm["targets"]]
+                tm["otherwise"] = tm["otherwise"] + off_b
+        caller["blocks"].append(nb)
+
+
+def inline_new_helpers(facts, local_crates=("rustemo", "rustemo_compiler", "rcomp")):
+    if not os.path.exists(KNOWN_FNS) or os.environ.get("VERIF_NO_INLINE"):
+        return {}
+    known = set(json.load(open(KNOWN_FNS)))
+    def is_new(f):
+        p = strip_generics(f.path)
+        return (f.crate in local_crates and "{closure" not in p and f.has_body() and p not in known
+                and not f.d.get("pub") and f.kind in ("Fn", "AssocFn") and not p.startswith("<")
+                and len(f.blocks) <= INLINE_MAX_BLOCKS)
+    new = {strip_generics(f.path): f for f in facts.fns.values() if is_new(f)}
+    if not new:
+        return {}
+    def local_callee(term):
+        if term["k"] != "call" or term["f"]["k"] != "fn":
+            return None
+        return strip_generics(term["f"].get("resolved") or term["f"]["def"])
+    calls = {}
+    for p, f in new.items():
+        calls[p] = {local_callee(b["term"]) for b in f.blocks} & set(new)
+    # helpers on a cycle stay as they are
+    def reaches(a, b, seen):
+        for c in calls[a]:
+            if c == b or (c not in seen and not seen.add(c) and reaches(c, b, seen)):
+                return True
+        return False
+    new = {p: f for p, f in new.items() if not reaches(p, p, set())}
+    order, done = [], set()
+    def visit(p):
+        if p in done:
+            return
+        done.add(p)
+        for c in sorted(calls[p]):
+            if c in new:
+                visit(c)
+        order.append(p)
+    for p in sorted(new):
+        visit(p)
+    inlined = {}
+    for p in order:
+        g = facts.fns[new[p].path]      # may already carry its own inlined helpers
+        for cp in sorted(facts.fns):
+            f = facts.fns[cp]
+            if f is g or not f.has_body() or f.crate not in local_crates:
+                continue
+            sites = [i for i, b in enumerate(f.blocks) if local_callee(b["term"]) == p and b["term"].get("t") is not None]
+            if not sites:
+                continue
+            d = copy.deepcopy(f.d)
+            for i in sites:
+                inline_call(d, i, g.d)
+            nf = Fn(d, f.crate)
+            facts.fns[cp] = nf
+            for c in facts.crates:
+                if cp in c.fns and c.fns[cp] is f:
+                    c.fns[cp] = nf
+            inlined.setdefault(g.path, []).append(cp)
+    for gp, callers in inlined.items():
+        facts.fns[gp].d["inlined_into"] = callers
+    return inlined
 
 
 # ---------------------------------------------------------------- callees
